@@ -103,7 +103,11 @@ def _apply_op(prog, it, home: FuncInfo, op, args):
         sub = Interp(prog, tgt, args=dict(zip(tgt.params, args)))
         rets = sub.returns
         if len(rets) == 1 and not rets[0][0] and not sub.falls_through:
-            return rets[0][1]
+            r = rets[0][1]
+            # (a helper that applies an operator HANDED to it: _call_swapped(op, a, b) -> op(b, a))
+            if r[0] == "call" and r[1][0] == "attr" and r[1][1] == ("name", "operator") and not r[3]:
+                return _norm_ops(r)
+            return r
         return None
     if op[0] == "lam":
         r = it.call_value(op, tuple(args))
@@ -116,6 +120,14 @@ def _apply_op(prog, it, home: FuncInfo, op, args):
             if len(sub.returns) == 1 and not sub.returns[0][0] and not sub.falls_through and sub.returns[0][1][0] == "lam":
                 r = sub.call_value(sub.returns[0][1], tuple(args))
                 return _norm_ops(r) if r is not None else None
+            # ... or a partial of a package helper: functools.partial(_call_swapped, op)
+            if len(sub.returns) == 1 and not sub.returns[0][0] and not sub.falls_through:
+                made = sub.returns[0][1]
+                if made[0] == "call" and made[1] in (("name", "partial"), ("attr", ("name", "functools"), "partial")) and made[2] and not made[3]:
+                    r = _apply_op(prog, sub, fac, made[2][0], tuple(made[2][1:]) + tuple(args))
+                    return _norm_ops(r) if r is not None else None
+    if op[0] == "call" and op[1] in (("name", "partial"), ("attr", ("name", "functools"), "partial")) and op[2] and not op[3]:
+        return _apply_op(prog, it, home, op[2][0], tuple(op[2][1:]) + tuple(args))
     return None
 
 
